@@ -25,6 +25,7 @@ in-progress export}.
 from __future__ import annotations
 
 import json
+import errno
 import os
 import shutil
 from pathlib import Path
@@ -59,7 +60,7 @@ ASSUMPTIONS = [
 PROBES = ["mixed_cell_shapes_2d", "two_subdomains_same_dim_different_mix", "polyhedral_3d", "interface_data", "vector_data", "ge_11_exports", "non_integer_times",
           "times_closer_than_1e-6", "crash_in_times_json", "crash_in_vtu", "crash_in_step_pvd", "crash_in_collecting_pvd", "crash_between_exports", "torn_file",
           "restart_route_pvd", "restart_route_mdg_pvd", "restart_route_vtu", "second_restart", "third_restart", "restart_raised_after_midexport_crash",
-          "continue_after_restart", "crash_during_restart_before_any_output", "data_tuples_not_in_mdg_order", "constants_exported_separately", "stale_output_of_previous_run_in_folder", "readonly_import_of_older_step", "zero_d_subdomain", "export_after_vtu_route_restart_raises"]
+          "continue_after_restart", "crash_during_restart_before_any_output", "data_tuples_not_in_mdg_order", "constants_exported_separately", "stale_output_of_previous_run_in_folder", "io_error_during_export", "times_to_export_subset", "step_not_exported", "readonly_import_of_older_step", "zero_d_subdomain", "export_after_vtu_route_restart_raises"]
 
 KEYS_SD = ["p"]
 
@@ -333,6 +334,10 @@ def run_exporter(ch, tr: Trace) -> None:
                 raise Violation("export_of_valid_data_completes", f"export of step {k} raised {e!r}", "export_raised")
             except (Violation, EndOfRun):
                 raise
+            except OSError:
+                if io_armed[0] and seam.fired and seam.fired[-1][0] == "io-error":
+                    raise  # the injected environment failure, handled by the history loop as the end of this process
+                raise Violation("export_of_valid_data_completes", f"export of step {k} raised an OSError that was not injected", "export_raised")
             except Exception as e:  # noqa: BLE001  nothing can be restored from an export that does not complete
                 raise Violation("export_of_valid_data_completes", f"export of step {k} raised {e!r}", "export_raised")
             rec["complete"] = True
@@ -346,6 +351,7 @@ def run_exporter(ch, tr: Trace) -> None:
             tr.state((min(last_complete[0] + 1, 12), cycle[0], "export", True))
 
         durable_inprogress = [None]
+        io_armed = [False]
         last_export_crossings = [40]
         ref = [None]
         home: dict = {}  # step -> folder holding its files once the run that wrote them has crashed
@@ -440,11 +446,33 @@ def run_exporter(ch, tr: Trace) -> None:
                             # known from the previous one (same files), so the drawn crossing usually lands inside
                             per_export = max(8, last_export_crossings[0])
                             at = seam.n + 1 + ch.draw(per_export)
-                            seam.arm_crash(at, ch.choice([0.0, 0.5, 0.9, 1.0]) if torn else None)
+                            if ch.flag(1, 4):
+                                # the environment fails instead of the process: disk full / I/O error at that crossing.
+                                # Nothing in porepy handles it, the exception ends the simulation; unlike a crash, the
+                                # unwinding closes (and flushes) the files that were open.
+                                io_armed[0] = True
+                                for a in range(at, at + 400):  # first open/write crossing at or after the drawn one
+                                    seam.arm_io_error(a, ch.choice([errno.ENOSPC, errno.EIO]) if a == at else errno.ENOSPC)
+                            else:
+                                seam.arm_crash(at, ch.choice([0.0, 0.5, 0.9, 1.0]) if torn else None)
                         c0 = seam.n
                         try:
                             do_export(sess, advance=True)
                             last_export_crossings[0] = seam.n - c0
+                            io_armed[0] = False
+                        except OSError as e:
+                            if not (io_armed[0] and seam.fired and seam.fired[-1][0] == "io-error"):
+                                raise
+                            io_armed[0] = False
+                            f = seam.fired[-1]
+                            for w in list(seam.open_writers):
+                                w._freeze(None)
+                            seam.open_writers.clear()
+                            kind = file_kind(f[3])
+                            tr.fault("io-error@" + kind, errno.errorcode.get(e.errno, str(e.errno)))
+                            tr.probe("io_error_during_export")
+                            crashed = True
+                            crash_inside = True
                         except SimCrash:
                             f = seam.fired[-1]
                             kind = file_kind(f[3])
@@ -567,8 +595,14 @@ def run_model_level(ch, tr: Trace, families=("flow",)) -> None:
         max_cycles = ch.rng(1, 3)
         torn = ch.flag()
         sim.extra_params = {"export_constants_separately": ch.flag(1, 3)}
+        if ch.flag(1, 4):
+            # export only at listed times (initial, final and whatever step happens to land on an original schedule
+            # point): file indices and time indices then differ, and a restart goes back over un-exported steps
+            sim.extra_params["times_to_export"] = list(sched)
     if sim.extra_params["export_constants_separately"]:
         tr.probe("constants_exported_separately")
+    if "times_to_export" in sim.extra_params:
+        tr.probe("times_to_export_subset")
     tr.emit("config2", sim.tm_kw["schedule"], sim.p_fail, max_cycles, torn, sim.extra_params["export_constants_separately"])
     with envseam.scratch() as root:
         folder = Path(root) / "viz"
@@ -590,6 +624,15 @@ def run_model_level(ch, tr: Trace, families=("flow",)) -> None:
             durable[k] = rec
             state["inprog"] = (k, prev)
             real_save()
+            if model.exporter._time_step_counter == k:
+                # save_data_time_step decided not to export this step (times_to_export): nothing new is durable
+                if prev is not None:
+                    durable[k] = prev
+                else:
+                    durable.pop(k, None)
+                state["inprog"] = None
+                tr.probe("step_not_exported")
+                return
             rec["complete"] = True
             state["inprog"] = None
             state["last_complete"] = k
